@@ -10,4 +10,5 @@ mkdir -p .cache evidence replay
 (cd /repo && cargo build --offline -p lalrpop --bin lalrpop)
 [ -f harness/Cargo.lock ] || cp /repo/Cargo.lock harness/Cargo.lock
 (cd harness && cargo build --offline --bins)
+gcc -shared -fPIC -O1 -o .cache/crashshim.so harness/shim/crashshim.c -ldl
 echo setup-ok
